@@ -59,7 +59,13 @@ func (p *c12) source(c fw.Case) (name, src string) {
 	switch c.Kind {
 	case "go-compatible":
 		g := &gen.GoGen{R: r}
-		return "main.xgo", g.Program(r.Range(1, 4))
+		src := g.Program(r.Range(1, 4))
+		// package-level declarations that come after the functions using them (loaded on demand in the middle of
+		// a function body), multi-name specs sharing a name with a local
+		late := "\nfunc useLate() int {\n\tlateB := \"local\"\n\t_ = lateB\n\treturn lateA + len(lateC) + lateK + int(lateT(2)) + lateF()\n}\n"
+		src = strings.Replace(src, "func main() {", late+"\nfunc main() {\n\t_ = useLate()", 1)
+		src += "\nvar lateA, lateB = 3, 4\n\nvar lateC = \"late\"\n\nconst lateK, lateL = 7, \"l\"\n\ntype lateT int\n\nfunc lateF() int { return lateB + len(lateL) }\n"
+		return "main.xgo", src
 	case "sugar":
 		switch c.P["g"] {
 		case "0":
